@@ -194,7 +194,8 @@ class Runtime:
             elif beh == "pass" and j == 0:
                 vals.append(args[spec["beh_param"]])
             elif beh == "const":
-                vals.append(spec["beh_value"])
+                cv = spec["beh_value"]
+                vals.append(list(cv) if isinstance(cv, list) else cv)
             elif beh == "snapshot" and j == 0:
                 # mutate the default-valued list argument, return a snapshot of it
                 p = spec["beh_param"]
